@@ -83,6 +83,23 @@ def mutants_of(rel):
             out.append((rel, i, l, l[:len(l) - len(l.lstrip())] + '();', 'dropped statement'))
         if re.match(r'^[a-zA-Z_][\w\.]* (\+|-)?= .*;$', st):
             out.append((rel, i, l, l[:len(l) - len(l.lstrip())] + '();', 'dropped assignment'))
+        # `if c {` -> `if true {` / `if false {`   (also `} else if c {`)
+        m = re.match(r'^(\s*(?:\} else )?if )(?!let )(.+)( \{)$', l)
+        if m and 'if let' not in l:
+            out.append((rel, i, l, m.group(1) + 'true' + m.group(3), 'condition -> true'))
+            out.append((rel, i, l, m.group(1) + 'false' + m.group(3), 'condition -> false'))
+        # a short identifier-like string literal (attribute / keyword names) gets a different spelling
+        for m in re.finditer(r'"([a-z_]{2,20})"', l):
+            if 'format!' in l or 'bail!' in l or 'context(' in l or 'expect(' in l or 'panic!' in l:
+                continue
+            out.append((rel, i, l, l[:m.start(1)] + m.group(1) + '_x' + l[m.end(1):], 'literal "%s" -> "%s_x"' % (m.group(1), m.group(1))))
+        # `.iter()` loses its first element / is reversed
+        for m in re.finditer(r'\.iter\(\)', ls):
+            out.append((rel, i, l, l[:m.end()] + '.skip(1)' + l[m.end():], '.iter() -> .iter().skip(1)'))
+        # `x += y` -> `x -= y` ; `x = y` kept
+        m = re.search(r' \+= ', ls)
+        if m:
+            out.append((rel, i, l, l[:m.start()] + ' -= ' + l[m.end():], '+= -> -='))
         # Some(x) -> None in a return position
         m = re.match(r'^(\s*)(return )?Some\((.*)\)(;?)$', l)
         if m and 'Ok(' not in l:
@@ -151,6 +168,10 @@ def main():
     allm = []
     for f in files:
         allm += mutants_of(f)
+    prev = opt('--skip-done', None)
+    if prev and os.path.exists(prev):
+        done = {(r['file'], r['line'], r['new']) for r in json.load(open(prev))}
+        allm = [m for m in allm if (m[0], m[1] + 1, m[3].strip()) not in done]
     random.shuffle(allm)
     # at most 2 mutants per source line
     per = {}
